@@ -96,6 +96,47 @@ Definition dists_close (a b : list llap) : bool :=
           (combine a b).
 
 
+
+(* "carried through at the output precision" does not fix the rounding rule at a tie (math.Round
+   of the scaled value against the closest decimal): channels that differ from the model's by at
+   most one unit of their printed precision still meet the property (S). *)
+Definition close_dp (dp : Z) (a b : f64) : bool :=
+  (a =? b) || fle (fabs (fsub a b)) (f_of_ratio 1001 (1000 * 10 ^ dp)).
+Definition close_odp (dp : Z) (a b : option f64) : bool :=
+  match a, b with None, None => true | Some x, Some y => close_dp dp x y | _, _ => false end.
+Definition blank_o (a : option f64) : option f64 := match a with None => None | Some _ => Some 0 end.
+Definition noround_fix (f : lfix) : lfix :=
+  mkFix (f_id f) (f_date f) (f_lat f) (f_lon f) (f_alt f) 0 (f_diff f) (f_posfix f) (f_interp f) (f_sats f)
+        0 (f_hdop f) 0 0 (f_offset f)
+        (match f_accel f with None => None | Some a => Some (mkAccelOut (ao_source a) 0 0 (ao_lat a) (ao_lon a)) end)
+        (match f_obd f with
+         | None => None
+         | Some o => Some (mkObdOut (match oo_rpm o with None => None | Some _ => Some 0 end) (blank_o (oo_map o)) (blank_o (oo_speed o))
+                                    (blank_o (oo_throttle o)) (blank_o (oo_coolant o)) (blank_o (oo_iat o)))
+         end).
+Definition noround_lap (l : llap) : llap :=
+  mkLLap (l_id l) (l_date l) (l_time l) (l_vehicle l) (l_track l) (l_tags l) (l_note l) (l_rectype l) 0 (map noround_fix (l_fixes l)).
+Definition fix_rounded_close (f g : lfix) : bool :=
+  close_dp 1 (f_speed f) (f_speed g) && close_dp 1 (f_dir f) (f_dir g) && close_dp 1 (f_acc f) (f_acc g) &&
+  (match f_accel f, f_accel g with
+   | None, None => true
+   | Some a, Some b => close_dp 2 (ao_lateral a) (ao_lateral b) && close_dp 2 (ao_lineal a) (ao_lineal b)
+   | _, _ => false
+   end) &&
+  (match f_obd f, f_obd g with
+   | None, None => true
+   | Some a, Some b =>
+       (match oo_rpm a, oo_rpm b with None, None => true | Some x, Some y => Z.abs (x - y) <=? 1 | _, _ => false end) &&
+       close_odp 2 (oo_map a) (oo_map b) && close_odp 1 (oo_speed a) (oo_speed b) && close_odp 2 (oo_throttle a) (oo_throttle b) &&
+       close_odp 1 (oo_coolant a) (oo_coolant b) && close_odp 0 (oo_iat a) (oo_iat b)
+   | _, _ => false
+   end).
+Definition rounded_close (a b : list llap) : bool :=
+  Nat.eqb (length a) (length b) &&
+  forallb (fun '(x, y) => Nat.eqb (length (l_fixes x)) (length (l_fixes y)) &&
+                          forallb (fun '(f, g) => fix_rounded_close f g) (combine (l_fixes x) (l_fixes y)))
+          (combine a b).
+
 (* C11 speaks about rows "between two fresh OBD readings" and about rows with fresh readings.
    What a stale row before the first or after the last fresh reading receives (an
    extrapolation) is not fixed: a database that differs from the model's only in the OBD
@@ -134,6 +175,9 @@ Definition check (p : proj) (c : case) : verdict :=
       if Nat.eqb cls 0 then
         (if zlist_eqb (tok_db p db) (tok_db p (c_db c)) then VA
          else if p_all p && zlist_eqb (tok_db p (map nodist_lap db)) (tok_db p (map nodist_lap (c_db c))) && dists_close db (c_db c)
+              then VS
+         else if p_all p && zlist_eqb (tok_db p (map noround_lap db)) (tok_db p (map noround_lap (c_db c)))
+                 && dists_close db (c_db c) && rounded_close db (c_db c)
               then VS
          else if p_obd p && negb (p_all p) && obd_close (c_laps c) db (c_db c) then VS
          else VV)
